@@ -27,6 +27,10 @@ pub enum EvalKind {
     /// PC-relative data instruction naming a label: opcode nibble (2 LD, 3 ST, 0xA LDI, 0xB STI,
     /// 0xE LEA) and register.
     LabelOp { op: u8, reg: u8, label: String },
+    /// `JSR label`: the PC becomes the label's address; the link value in R7 is unspecified.
+    JumpLabel { label: String },
+    /// `JSRR reg`: the PC becomes the register's value; the link value in R7 is unspecified.
+    JumpReg { reg: u8 },
     /// Must be refused with no effect.
     Refused,
 }
@@ -349,6 +353,8 @@ impl Item {
                         j.put("reg", *reg as u64);
                         j.put("label", label.as_str());
                     }
+                    EvalKind::JumpLabel { label } => j.put("jump_label", label.as_str()),
+                    EvalKind::JumpReg { reg } => j.put("jump_reg", *reg as u64),
                     EvalKind::Refused => j.put("refused", true),
                 }
             }
@@ -382,7 +388,11 @@ impl Item {
             "goto" => Cmd::Goto(loc()?),
             "eval" => {
                 let text = j.get_str("text")?.to_string();
-                let kind = if let Some(w) = j.get_int("word") {
+                let kind = if let Some(l) = j.get_str("jump_label") {
+                    EvalKind::JumpLabel { label: l.to_string() }
+                } else if let Some(r) = j.get_int("jump_reg") {
+                    EvalKind::JumpReg { reg: r as u8 }
+                } else if let Some(w) = j.get_int("word") {
                     EvalKind::Word(w as u16)
                 } else if let Some(label) = j.get_str("label") {
                     EvalKind::LabelOp {
